@@ -113,6 +113,15 @@ def l102(ticks, quick):
     check(bad == [], 'every client: connect once, then messages, then disconnect once; starting first, shutdown last',
           violations=bad[:3], script=dict(choices))
     check(len(world.ctxt.connections) == 0, 'after shutdown no client is left in the connection pool')
+    # a peer disconnect is acted upon promptly, not only at shutdown: two ticks after the DISCONNECT datagram of a
+    # connected client was delivered the client has left the connection pool (and the handler was told)
+    if choices.get(5) == 'disconnect' and stop >= 8 and all(choices.get(t) in ('reply', 'app', 'nothing', 'dup', 'garbage') for t in (2, 3, 4)):
+        pools = {t: conns for t, conns, temps in world.tick_log}
+        if A in pools.get(5, set()):
+            check(A not in pools.get(8, {A}), 'a client that sent DISCONNECT is removed from the pool within a few ticks, not only at shutdown')
+            sd = [i for i, e in enumerate(ev) if e[0] == 'shutdown']
+            da = [i for i, e in enumerate(ev) if e[0] == 'disconnect' and e[1].addr == A]
+            check(len(da) >= 1, 'and the handler sees its disconnect event')
     # messages: only from connected clients, only what that peer sent, each at most once
     for e in ev:
         if e[0] == 'message':
